@@ -3,3 +3,4 @@ import PyTreesModel.Tree
 import PyTreesModel.Names
 import PyTreesModel.Blackboard
 import PyTreesModel.Edit
+import PyTreesModel.Idioms
